@@ -16,12 +16,15 @@ import shutil
 import tempfile
 import subprocess
 
-from vsim import core, driver, load
+from vsim import core, driver, load, policy
 from checks import sched, simcheck
 
 NAMES_OK = ('run', 'with space', 'ünï', '-dash', 'dot.ted', 'x' * 120,
             'UPPER', 'a b c', 'stdout', 'stderr', 'tab\there', "quo'te")
 NAMES_BAD = ('sl/ash', 'nul\0char', '.', '..', '/abs', '')
+CODE_KINDS = ('checkout', 'build')
+MARKER = '--verif-id-%d-%d'
+STALE = 'STALE text left by an earlier run\n'
 START_FAIL = {'ENOENT': FileNotFoundError, 'EACCES': PermissionError,
               'ENOMEM': OSError, 'EAGAIN': OSError}
 
@@ -42,9 +45,14 @@ def gen_scenario(rng, fam):
         else:
             name = pool.pop()
         names.append(name)
-        via = rng.choice(('cli', 'clis', 'clis', 'factory')) if not real \
+        via = rng.choice(('cli', 'clis', 'clis', 'factory', 'checkout',
+                          'build')) if not real \
             else rng.choice(('cli', 'clis'))
-        ncmd = 1 if via in ('cli', 'factory') else rng.randrange(1, 5)
+        if via in CODE_KINDS and not name_valid(name):
+            name = pool.pop()
+            names[-1] = name
+        ncmd = 1 if via in ('cli', 'factory') else 2 if via in CODE_KINDS \
+            else rng.randrange(1, 5)
         cmds = []
         for k in range(ncmd):
             cmd = {'exit': 0, 'dur': rng.choice((0, 1, 5, 30)),
@@ -68,11 +76,22 @@ def gen_scenario(rng, fam):
         hard = [j for j in range(i) if rng.random() < 0.25]
         soft = [j for j in range(i) if j not in hard and rng.random() < 0.15]
         tasks.append({'name': name, 'via': via, 'cmds': cmds, 'hard': hard,
-                      'soft': soft})
+                      'soft': soft, 'stale': rng.random() < 0.3})
+    if fam.get('startup'):
+        # the first run of a job: nothing exists yet and the workers start
+        # their first tasks at the same moment
+        for tsk in tasks[:rng.choice((2, 3))]:
+            tsk['hard'], tsk['soft'] = [], []
+        return {'kind': 'runjob', 'tasks': tasks,
+                'workers': rng.choice((2, 3, 4)),
+                'tick': rng.choice(sched.TICKS), 'linemode': True,
+                'fresh_roots': True, 'real_call': False, 'startup': True}
     return {'kind': 'runjob', 'tasks': tasks,
             'workers': rng.choice((1, 2, 3, 4)),
             'tick': rng.choice(sched.TICKS),
-            'linemode': rng.random() < 0.15 and not real,
+            'linemode': rng.random() < 0.25 and not real,
+            # the output and log roots do not exist yet (first run of a job)
+            'fresh_roots': rng.random() < 0.5,
             'real_call': real}
 
 
@@ -141,15 +160,37 @@ class Result:
 def run_scenario(scn, chooser, max_steps=200000):
     mods = load.load_sim()
     run_mod = mods['run']
-    root = tempfile.mkdtemp(prefix='c19-', dir=driver.scratch_root())
-    lf = load.line_files(mods, ('queue', 'env', 'run')) \
+    top = tempfile.mkdtemp(prefix='c19-', dir=driver.scratch_root())
+    if scn.get('fresh_roots'):
+        root = os.path.join(top, 'deep', 'out')
+        log_root = os.path.join(top, 'deep', 'log')
+    else:
+        root = os.path.join(top, 'out')
+        log_root = os.path.join(top, 'log')
+        os.makedirs(root)
+        os.makedirs(log_root)
+        for tsk in scn['tasks']:
+            name = full_name(tsk)
+            if not tsk.get('stale') or not name_valid(name):
+                continue
+            os.makedirs(os.path.join(root, name), exist_ok=True)
+            for fname in ('stdout', 'stderr'):
+                with open(os.path.join(root, name, fname), 'w') as fil:
+                    fil.write(STALE * 3)
+            with open(os.path.join(log_root, name + '.log'), 'w') as fil:
+                fil.write(STALE * 3)
+    lf = load.line_files(mods, ('queue', 'env', 'run', 'path', 'code')) \
         if scn.get('linemode') else None
     sim = core.Sim(chooser, tick=scn['tick'], max_steps=max_steps,
                    line_files=lf, keep_trace=False)
     table = {}
+    markers = {}
     for i, tsk in enumerate(scn['tasks']):
         for k in range(len(tsk['cmds'])):
-            table[tuple(cli_of(scn, i, k))] = (i, k)
+            if tsk['via'] in CODE_KINDS:
+                markers[MARKER % (i, k)] = (i, k)
+            else:
+                table[tuple(cli_of(scn, i, k))] = (i, k)
     proc_log = []
     holder = {}
     real_call = subprocess.call
@@ -157,6 +198,10 @@ def run_scenario(scn, chooser, max_steps=200000):
     def stub_call(cli, *args, stdout=None, stderr=None, cwd=None, **kwargs):
         key = tuple(cli)
         ident = table.get(key)
+        if ident is None:
+            hits = [markers[tok] for tok in cli if tok in markers]
+            if len(hits) == 1:
+                ident = hits[0]
         rec = {'cli': list(cli), 'cwd': cwd, 'step': sim.steps,
                'ident': ident, 'kwargs': sorted(kwargs)}
         proc_log.append(rec)
@@ -205,8 +250,23 @@ def run_scenario(scn, chooser, max_steps=200000):
         for i, tsk in enumerate(scn['tasks']):
             deps = [objs[j] for j in tsk['hard']]
             soft = [objs[j] for j in tsk['soft']]
-            clis = [cli_of(scn, i, k) for k in range(len(tsk['cmds']))]
-            if tsk['via'] == 'cli':
+            clis = [cli_of(scn, i, k) for k in range(len(tsk['cmds']))] \
+                if tsk['via'] not in CODE_KINDS else None
+            if tsk['via'] == 'checkout':
+                obj = mods['code'].CheckoutTask(
+                    tsk['name'], repository='repo-%d' % i,
+                    flags=[MARKER % (i, 0)] + list(tsk['cmds'][0]['args']),
+                    ref=MARKER % (i, 1), deps=deps, soft_deps=soft)
+            elif tsk['via'] == 'build':
+                obj = mods['code'].BuildTask(
+                    tsk['name'], '/nonexistent/src-%d' % i,
+                    configure_flags=[MARKER % (i, 0)] +
+                    list(tsk['cmds'][0]['args']),
+                    build_flags=[MARKER % (i, 1)] +
+                    list(tsk['cmds'][1]['args']),
+                    targets=['all'] if i % 2 else None,
+                    deps=deps, soft_deps=soft)
+            elif tsk['via'] == 'cli':
                 obj = run_mod.RunTask.from_cli(tsk['name'], clis[0],
                                                deps=deps, soft_deps=soft)
             elif tsk['via'] == 'clis':
@@ -216,6 +276,7 @@ def run_scenario(scn, chooser, max_steps=200000):
                 obj = factory.make(name=tsk['name'], ident='%d-0' % i,
                                    extra_args=clis[0][2:],
                                    deps=deps, soft_deps=soft)
+            obj.do = marked_do(sim, obj.do, i)
             objs.append(obj)
         dg = mods['depgraph'].DepGraph
         hard, softg = dg(), dg()
@@ -232,7 +293,7 @@ def run_scenario(scn, chooser, max_steps=200000):
         holder['names'] = [o.name for o in objs]
         backend = mods['queue'].QueueScheduling(n_workers=scn['workers'])
         config = mods['config'].Config({'path': {'output-root': root,
-                                                 'log-root': root + '-log'}})
+                                                 'log-root': log_root}})
         schd = mods['scheduler'].Scheduler(hard_graph=hard, soft_graph=softg,
                                            backend=backend)
         return schd.schedule(env=env, config=config)
@@ -264,7 +325,8 @@ def run_scenario(scn, chooser, max_steps=200000):
                               else val)
                         for key, val in ent.items()
                         if key in ('status', 'return_codes', 'stdout',
-                                   'stderr', 'output_dir', 'result', 'clis')}
+                                   'stderr', 'output_dir', 'result', 'clis',
+                                   'checkout_log', 'build_log')}
             for i, name in enumerate(res.names):
                 tdir = os.path.join(root, name) if name_valid(name) else None
                 got = {}
@@ -275,13 +337,31 @@ def run_scenario(scn, chooser, max_steps=200000):
                             with open(fpath, 'rb') as fil:
                                 got[fname] = fil.read().decode('utf-8',
                                                                 'replace')
+                lpath = os.path.join(log_root, name + '.log') \
+                    if name_valid(name) else None
+                if lpath and os.path.isfile(lpath):
+                    with open(lpath, 'rb') as fil:
+                        got['<log>'] = fil.read().decode('utf-8', 'replace')
                 res.files[i] = got
-        res.top_level = sorted(os.listdir(root))
+        res.log_root = log_root
+        res.top_level = sorted(os.listdir(root)) if os.path.isdir(root) \
+            else []
     finally:
         run_mod.call = saved
-        shutil.rmtree(root, ignore_errors=True)
-        shutil.rmtree(root + '-log', ignore_errors=True)
+        shutil.rmtree(top, ignore_errors=True)
     return res
+
+
+def marked_do(sim, real_do, i):
+    '''Tell the scheduling policy where a task starts and ends (stalls are
+    placed relative to these marks); the task itself is untouched.'''
+    def do(env, config):
+        sim.mark('do-enter', i)
+        try:
+            return real_do(env, config)
+        finally:
+            sim.mark('do-exit', i)
+    return do
 
 
 def oracle(scn, res):
@@ -332,6 +412,10 @@ def oracle(scn, res):
             continue
         tdir = os.path.join(res.root, name)
         dirs.setdefault(os.path.normpath(tdir), []).append(name)
+        if tsk['via'] in CODE_KINDS:
+            viol.extend(judge_code_task(tsk, name, own[i], recs, ent,
+                                        res.files.get(i, {}), res))
+            continue
         for rec in recs:
             if rec['cwd'] is None or \
                     os.path.normpath(rec['cwd']) != os.path.normpath(tdir):
@@ -350,17 +434,13 @@ def oracle(scn, res):
             viol.append(('output-differs', 'stderr-missing',
                          {'task': name, 'files': sorted(files)}))
         else:
-            pos = 0
-            for cmd in ran:
-                if not cmd['err']:
-                    continue
-                where = err.find(cmd['err'], pos)
-                if where < 0:
-                    viol.append(('output-differs', 'stderr-differs',
-                                 {'task': name, 'got': err[:120],
-                                  'missing': cmd['err'][:40]}))
-                    break
-                pos = where + len(cmd['err'])
+            started_cmds = tsk['cmds'][:own[i]['started']]
+            bad = captured_differs(err, [
+                (rec['cli'], '' if cmd['start'] else cmd['err'])
+                for rec, cmd in zip(recs, started_cmds)])
+            if bad:
+                viol.append(('output-differs', 'stderr-differs',
+                             dict(bad, task=name)))
         if not own[i]['raised']:
             if ent.get('return_codes') != own[i]['codes']:
                 viol.append(('return-codes', 'return-codes-differ',
@@ -380,6 +460,87 @@ def oracle(scn, res):
     return viol
 
 
+def echo_line(cli):
+    return '$ ' + ' '.join(shlex.quote(tok) for tok in cli) + '\n'
+
+
+def captured_differs(text, parts):
+    '''``parts``: (command line, text the command wrote) per started command.
+    The file must hold the commands' texts in order and nothing else, except
+    for the echoed command lines, which the property does not specify: if they
+    are there in the documented format they are removed before an exact
+    comparison; otherwise only order and containment are required.'''
+    rest = text
+    want = ''.join(body for _cli, body in parts)
+    exact = True
+    pos = 0
+    pieces = []
+    for cli, body in parts:
+        echo = echo_line(cli)
+        where = rest.find(echo, pos)
+        if where < 0:
+            exact = False
+            break
+        pieces.append(rest[pos:where])
+        pos = where + len(echo)
+    if exact:
+        pieces.append(rest[pos:])
+        got = ''.join(pieces)
+        if got != want:
+            return {'got': got[:160], 'want': want[:160], 'mode': 'exact'}
+        # every command's text follows its own echo line
+        pos = 0
+        for cli, body in parts:
+            where = rest.find(echo_line(cli), pos) + len(echo_line(cli))
+            if not rest.startswith(body, where):
+                return {'got': rest[where:where + 80], 'want': body[:80],
+                        'mode': 'exact-order'}
+            pos = where + len(body)
+        return None
+    pos = 0
+    for _cli, body in parts:
+        if not body:
+            continue
+        where = text.find(body, pos)
+        if where < 0:
+            return {'got': text[:160], 'missing': body[:60],
+                    'mode': 'containment'}
+        pos = where + len(body)
+    if STALE in text:
+        return {'got': text[:160], 'mode': 'stale-text'}
+    return None
+
+
+def judge_code_task(tsk, name, own, recs, ent, files, res):
+    '''CheckoutTask / BuildTask: both streams of the commands go to one log
+    file; the stub child writes out[:half], err, out[half:].'''
+    viol = []
+    parts = []
+    for rec, cmd in zip(recs, tsk['cmds'][:own['started']]):
+        if cmd['start']:
+            parts.append((rec['cli'], ''))
+            continue
+        half = len(cmd['out']) // 2
+        parts.append((rec['cli'],
+                      cmd['out'][:half] + cmd['err'] + cmd['out'][half:]))
+    log = files.get('<log>')
+    if log is None:
+        viol.append(('output-differs', 'log-missing', {'task': name}))
+    else:
+        bad = captured_differs(log, parts)
+        if bad:
+            viol.append(('output-differs', 'log-differs',
+                         dict(bad, task=name, kind=tsk['via'])))
+    if not own['raised']:
+        key = 'checkout_log' if tsk['via'] == 'checkout' else 'build_log'
+        want = os.path.join(res.log_root, name + '.log')
+        got = ent.get(key)
+        if not got or os.path.normpath(got) != os.path.normpath(want):
+            viol.append(('wrong-directory', 'log-path-differs',
+                         {'task': name, 'got': got}))
+    return viol
+
+
 def shrink(scn):
     ntask = len(scn['tasks'])
     if ntask > 1:
@@ -395,7 +556,7 @@ def shrink(scn):
         new = copy.deepcopy(scn)
         new['workers'] -= 1
         yield new
-    if scn.get('linemode'):
+    if scn.get('linemode') and not scn.get('startup'):
         new = copy.deepcopy(scn)
         new['linemode'] = False
         yield new
@@ -421,6 +582,18 @@ def shrink(scn):
             new = copy.deepcopy(scn)
             new['tasks'][i]['name'] = 't%d' % i
             yield new
+        if tsk.get('stale'):
+            new = copy.deepcopy(scn)
+            new['tasks'][i]['stale'] = False
+            yield new
+        if tsk['via'] in CODE_KINDS:
+            new = copy.deepcopy(scn)
+            new['tasks'][i]['via'] = 'clis'
+            yield new
+    if scn.get('fresh_roots') and not scn.get('startup'):
+        new = copy.deepcopy(scn)
+        new['fresh_roots'] = False
+        yield new
 
 
 class Spec(simcheck.SimSpec):
@@ -428,7 +601,8 @@ class Spec(simcheck.SimSpec):
     level = 'exploration'
     runs = {'quick': 16000, 'thorough': 800000}
     shard_runs = 250
-    families = [{'label': 'stub-processes'}] * 19 + \
+    families = [{'label': 'stub-processes'}] * 16 + \
+        [{'label': 'first-run-start-up', 'startup': True}] * 3 + \
         [{'label': 'real-subprocess', 'real': True}]
     rule = ('one evaluation = one simulated run of a job of 1-6 RunTasks '
             '(from_cli / from_clis / RunTaskFactory.make, 1-4 scripted '
@@ -458,6 +632,14 @@ class Spec(simcheck.SimSpec):
         return gen_scenario(rng, fam)
 
     def draw_chooser(self, rng, scn):
+        if scn.get('startup') and rng.random() < 0.8:
+            # one worker is held up somewhere in the first lines of its task
+            # while the others go through the same start-up code
+            base = policy.RandomWalk(rng, rng.choice((0.0, 0.02, 0.1)))
+            return policy.Stall(rng, base, [{
+                'at': 'mark', 'kind': 'do-enter', 'k': rng.randrange(1, 4),
+                'off': rng.randrange(0, 30),
+                'dur': rng.choice((300, 1500))}])
         return sched.draw_chooser(rng, scn)
 
     def run(self, scn, chooser):
